@@ -38,6 +38,10 @@ pxgstrf_relax_snode(
     int_t relax = superlumt_options->relax; /* maximum no of columns allowed 
 					     in a relaxed s-node */
     
+    /* A relaxed supernode is a supernode: it may not have more columns
+       than the maximum supernode size the storage map is built for. */
+    if ( relax > sp_ienv(3) ) relax = sp_ienv(3);
+
     desc = intCalloc(n+1);
 
     /* Compute the number of descendants of each node in the etree */
